@@ -1,4 +1,5 @@
 import Holpy.Kernel.Sem
+import Holpy.Kernel.BaseLogic
 /-
 Counter-model search used as the semantic oracle on sequents produced by the Python kernel:
 enumerate (or sample) valuations of the atoms of a sequent in a given finite model and evaluate
@@ -153,6 +154,80 @@ def search (M : Model) (th : Thm) (budget seed maxCost : Nat) : Verdict :=
         | k + 1 =>
           let (asg, st') := sample sized st
           if falsifies M th asg then .cex asg else gos k st'
+      gos budget (seed + 1)
+
+/-! ### standard valuations of the base logic (added for C01 with base-logic axioms)
+
+`searchStd` looks for a counter-model among the valuations that interpret the base-logic
+constants (`true false neg conj disj exists exists1 IF Some The`, at instances of their declared
+types) by their standard codes (`stdConst`; `Some`/`The` = least witness, else 0): those atoms
+are fixed, all other atoms are enumerated or sampled exactly as in `search`.  The same names at
+other types are ordinary atoms. -/
+
+/-- shape test, independent of the model -/
+def isStdConst (n : String) (T : Ty) : Bool :=
+  (stdConst ⟨fun _ => 0, fun _ => 0, fun _ _ => 0⟩ n T).isSome
+
+/-- the atoms that stay free under a standard valuation -/
+def freeAtomsStd (th : Thm) : List Atom :=
+  (thmAtoms th).filter fun a => !(a.1 == 2 && isStdConst a.2.1 a.2.2)
+
+/-- the base constants occurring in the sequent -/
+def stdAtoms (th : Thm) : List Atom :=
+  (thmAtoms th).filter fun a => a.1 == 2 && isStdConst a.2.1 a.2.2
+
+/-- carrier of a base constant's type: `(a ⇒ _) ⇒ _` or `bool ⇒ a ⇒ _` -/
+def stdCarrier (n : String) (T : Ty) : Option Ty :=
+  match n, T with
+  | "IF", .con "fun" [_, .con "fun" [a, _]] => some a
+  | _, .con "fun" [.con "fun" [a, _], _] => some a
+  | _, _ => none
+
+/-- work needed to build the code of a base constant (number of digits × work per digit) -/
+def stdCost (M : Model) (cap : Nat) (a : Atom) : Nat :=
+  match stdCarrier a.2.1 a.2.2 with
+  | none => 1
+  | some c =>
+    let n := sizeC M cap c
+    if n > cap then cap + 1
+    else if a.2.1 == "IF" then 2 * n * n
+    else if n ≥ 32 then cap + 1
+    else 2 ^ n * (n + 1) * (if a.2.1 == "exists1" then n + 1 else 1)
+
+def searchStd (M : Model) (th : Thm) (budget seed maxCost : Nat) : Verdict :=
+  let terms := th.hyps ++ [th.prop]
+  let tys := terms.foldl (fun acc t => typesAcc [] t acc) []
+  if !(tys.all (domOK M maxCost)) then .skip "type too large"
+  else
+  let atoms := freeAtomsStd th
+  if atoms.any (fun a => sizeC M maxCost a.2.2 > maxCost) then .skip "atom size"
+  else
+  let std := stdAtoms th
+  if std.any (fun a => stdCost M maxCost a > maxCost) then .skip "base constant too large"
+  else
+  let fixed : List (Atom × Nat) := std.map fun a => (a, (stdConst M a.2.1 a.2.2).getD 0)
+  let sized := atoms.map (fun a => (a, M.size a.2.2))
+  let cost := terms.foldl (fun c t => costAcc M t c) 0
+  if cost > maxCost then .skip s!"cost {cost}"
+  else
+    let total := sized.foldl (fun acc p => acc * p.2) 1
+    if total ≤ budget then
+      let rec go (i : Nat) (fuel : Nat) : Verdict :=
+        match fuel with
+        | 0 => .valid total true
+        | fuel + 1 =>
+          if i ≥ total then .valid total true
+          else
+            let asg := decode sized i
+            if falsifies M th (fixed ++ asg) then .cex asg else go (i + 1) fuel
+      go 0 (total + 1)
+    else
+      let rec gos (k : Nat) (st : Nat) : Verdict :=
+        match k with
+        | 0 => .valid budget false
+        | k + 1 =>
+          let (asg, st') := sample sized st
+          if falsifies M th (fixed ++ asg) then .cex asg else gos k st'
       gos budget (seed + 1)
 
 end Holpy.Oracle
